@@ -90,23 +90,23 @@ PROPS["C06"] = dict(
 PROPS["C03"] = dict(
     level="proof",
     technique="Lean 4 theorems relating the codec model to an independent by-the-book layout spec (Spec/Wire.lean: flat concatenations from Monero's headers) over abstract descriptions; three-way differential check lib bytes vs spec bytes vs model bytes on descriptions printed from the public struct fields",
-    level_text="C03_enc_eq_spec proves for EVERY description (both versions, coinbase/key inputs, plain/tagged outputs, any counts and ring size, all seven RingCT types, arbitrary contents) that the model encoder applied to the Rust-shaped value equals the spec bytes; C03_dec_spec that parsing the spec bytes yields exactly that value (on wfTx of C02); same for blocks. Spec/Wire mentions neither the model nor Gen, so a symmetric edit of the library (tag, count width, field order, matrix dimension on both sides) keeps C01/C02 true and breaks this check. The real serialiser is compared byte-for-byte with the spec on ~800 (quick) / ~7000 (thorough) descriptions. Session 4: C03_deserialize_spec / C03_block_dec_spec_desc (strict parse of the spec bytes; blocks at description level), C03_field_orders_are_monero and C03_spec_follows_field_orders over the generated Gen/Fields.lean (a symmetric reorder of a macro field list breaks a theorem), C03_rct_branching_complete (every generated table is read by a theorem), C03_bpp_count_is_one_byte (the recorded deviation as a theorem); 19 mainnet transactions and 3 blocks from the crate's own tests are compared three-way with their original hex.",
+    level_text="C03_enc_eq_spec proves for EVERY description (both versions, coinbase/key inputs, plain/tagged outputs, any counts and ring size, all seven RingCT types, arbitrary contents) that the model encoder applied to the Rust-shaped value equals the spec bytes; C03_dec_spec that parsing the spec bytes yields exactly that value (on wfTx of C02); same for blocks. Spec/Wire mentions neither the model nor Gen, so a symmetric edit of the library (tag, count width, field order, matrix dimension on both sides) keeps C01/C02 true and breaks this check — through the three-way run (library bytes vs model bytes vs spec bytes) and through the theorems over tables regenerated without fallback (tags, macro field orders), not through C03_enc_eq_spec itself, which relates two hand-written Lean functions. The real serialiser is compared byte-for-byte with the spec on ~800 (quick) / ~7000 (thorough) descriptions. Session 4: C03_deserialize_spec / C03_block_dec_spec_desc (strict parse of the spec bytes; blocks at description level), C03_field_orders_are_monero and C03_spec_follows_field_orders over the generated Gen/Fields.lean (a symmetric reorder of a macro field list breaks a theorem), C03_rct_branching_is_monero / _complete (every generated table of Gen/Codec is read by a theorem; they compare the arm PATTERN sets and the compared variants, with polarity, of the reviewed branching structure with the format's type sets — not what an arm does, and on a restructured source the reviewed table is kept with a translator note: the tie of the branching to the current source is the three-way run), C03_bpp_count_is_one_byte and C03_enc_eq_spec_iff (the recorded deviation as theorems: the model encoder gives the by-the-book bytes iff there are fewer than 128 BulletproofPlus proofs); 19 mainnet transactions and 3 blocks from the crate's own tests are compared three-way with their original hex.",
     level_note=_CODEC_NOTE + " Spec/Wire.lean is my transcription of cryptonote_basic.h / rctTypes.h (no reference implementation is available offline); cross-checked against the mainnet vectors in the suite through the model. Known finding: BulletproofPlus count 128..255 (one raw byte vs Monero's varint).",
     design_ref="DESIGN.md §6 C03, Appendix A",
     rule="type-directed descriptions cycling through all 7 RingCT types, both versions, coinbase and key inputs, ring sizes 1..20, 0..20 inputs/outputs (some with hundreds of outputs), blocks with 0..hundreds of hashes.",
-    assumptions=["Spec/Wire.lean is the Monero layout", "C03_dec_spec takes well-formedness in the form wfTx (build d) (C02's predicate)"],
+    assumptions=["Spec/Wire.lean is the Monero layout", "C03_dec_spec takes well-formedness in the form wfTx (build d) (C02's predicate)", "which bytes the Rust decoder assigns to which NAMED field of the opaque records (Bulletproof A/S/T1…, range and v1 signatures) is tied by the run (structs filled and printed by field name), not by a theorem", "Spec.u32le truncates mod 2^32 like the model (Bulletproof counts / nonces >= 2^32 are unreachable in Rust)"],
     gen_items=["CAP", "codec."],
     field_orders=True,
 )
 
 PROPS["C05"] = dict(
     level="proof",
-    technique="Lean 4 theorems: for a strictly parsed transaction the model of Transaction::hash equals the Monero three-hash formula over byte ranges of the received bytes (consequence of C01 soundness + a lemma on the decoder's output shape), H abstract; differential ids with the reference Keccak",
-    level_text="C05_prefix_hash, C05_id_v1, C05_id_rct prove (for any hash function H, any byte string b that parses strictly, any RingCT type) prefix_hash = H(b[0..p]) and id = H(b) for v1, id = H(H(b[0..p]) ‖ H(b[p..q]) ‖ (Null ? 0^32 : H(b[q..]))) otherwise, with p, q the format's boundaries; parsed_shape shows the hard-coded 'empty prunable' constant (regenerated from source) is unreachable for parsed transactions. The library's ids are compared with model and formula (reference Keccak) on generated transactions of every type and on mutated encodings that still parse. Session 4: C05_id_eq_spec / C05_id_spec_bytes tie the identifier and its boundaries p, q to the independent spec (Spec/Wire), C05_*_embedded cover non-strict parses (the miner transaction inside a block), and the spec side of the correspondence takes its boundaries from an independent by-the-book skipper (Spec/TxSkip.lean), not from the model's parse.",
+    technique="Lean 4 theorems: for a parsed transaction (strict or embedded) the model of Transaction::hash equals the Monero three-hash formula over byte ranges of the received bytes (C01 soundness + a lemma on the decoder's output shape), the ranges being those found by an independent by-the-book skipper over the raw bytes (proved for every accepted input), H abstract; differential ids with the reference Keccak, also through a short-reading reader",
+    level_text="C05_prefix_hash, C05_id_v1, C05_id_rct prove (for any hash function H, any byte string b that parses strictly, any RingCT type) prefix_hash = H(b[0..p]) and id = H(b) for v1, id = H(H(b[0..p]) ‖ H(b[p..q]) ‖ (Null ? 0^32 : H(b[q..]))) otherwise (every version != 1 with an input), with p, q the lengths of the re-encoded parsed prefix and base — which ARE the format's boundaries: C05_bounds_are_skipper proves for every accepted byte string (any version, any remainder) that the by-the-book skipper Spec.txBounds (Spec/TxSkip.lean: raw bytes, tags and counts only) succeeds and returns exactly p, q, the Null flag b[p] = 0 and, for version 1 / no inputs / Null, the consumed length; C05_id_skipper states the property over the skipper's ranges alone; parsed_shape shows the hard-coded 'empty prunable' constant (regenerated from source) is unreachable for parsed transactions. The library's ids are compared with model and formula (reference Keccak) on generated transactions of every type and on mutated encodings that still parse. Session 4: C05_id_eq_spec / C05_id_spec_bytes tie the identifier and its boundaries p, q to the independent spec (Spec/Wire) for descriptions (which denote versions 1 and 2 only; other versions: C05_id_rct + C05_bounds_are_skipper), C05_*_embedded cover non-strict parses (the miner transaction inside a block), and the spec side of the correspondence takes its boundaries — and, for version 1 / no inputs / Null, the end of an embedded transaction — from the skipper, not from the model's parse. Session 5: C05_function_of_consumed (equal consumed bytes => same parsed value and identifier, whatever follows), C05_no_id_for_proper_prefix; the library is also driven through a one-byte-per-read reader (c05_txid_chunked) and must give the identifier of the slice parse.",
     level_note=_CODEC_NOTE + " Keccak-256 = tiny-keccak is C17's subject; ids are compared using the Lean reference Keccak. Excluded point (version != 1, no inputs: no RingCT type exists) is stated (C05_no_inputs) and recorded in DESIGN.md §8.",
     design_ref="DESIGN.md §6 C05",
-    rule="generated transactions (all types, both versions) and their mutations that still parse.",
-    assumptions=["boundaries p, q on the spec side are taken from the model's parse (their by-the-book counterpart is C03's three-part spec)"],
+    rule="generated transactions (all types, both versions, versions other than 1/2) and their mutations that still parse; embedded parses with a remainder; the same inputs decoded through a short-reading reader; blobs cut short by 1..31 bytes.",
+    assumptions=["spec side of the run: strict parses take p, q, Null flag (and the end, where the format fixes it) from the by-the-book skipper; for an embedded parse of a non-Null RingCT transaction the END of the consumed part is the model's (the skipper does not walk the prunable part)", "Spec/TxSkip.lean is the Monero layout of transaction_prefix / rctSigBase (proved equal to the decoder model's boundaries, C05_bounds_are_skipper; tied to Spec/Wire for descriptions by C05_id_spec_bytes)"],
     gen_items=["emptyPrunableHash"],
 )
 
